@@ -975,9 +975,9 @@ def correspond(ctx) -> Corr:
     env = load_skeleton()
     rng = ctx.rng
     quick = ctx.tier == 'quick'
-    k1, k2, d1s, kc, kf, nrand, nfine, tmax, trand = (14, 16, [0], 7, 4, 200, 40, 4, 150) if quick else \
-        (34, 24, [0, 4, 6, 9, 12], 14, 9, 6000, 600, 5, 3000)
-    deadline = time.time() + (45 if quick else 480)
+    k1, k2, d1s, kc, kf, nrand, nfine, tmax, trand = (14, 15, [0], 7, 3, 150, 30, 4, 150) if quick else \
+        (30, 22, [0, 4, 6, 9], 12, 8, 4000, 400, 5, 3000)
+    deadline = time.time() + (45 if quick else 420)
 
     def jobs():
         for n, w in WITNESS.items():
